@@ -1938,3 +1938,176 @@ func ruleTypedNil(c *Ctx, rule string) {
 		c.okTrivial(rule, "typed-nil/none", "-", "no pointer result is stored into an interface field next to an untested error")
 	}
 }
+
+// ruleReadLockWrites: a map or list field is not written in a critical section that was entered with RLock. A read lock
+// lets other readers - another goroutine ranging over the same map - run at the same time: the runtime ends the process
+// with "concurrent map iteration and map write", which cannot be recovered.
+func ruleReadLockWrites(c *Ctx, rule string) {
+	w := c.w
+	n := 0
+	for _, fn := range w.All {
+		if !w.isMain(fn) || fn.Blocks == nil {
+			continue
+		}
+		var rlocks []ssa.CallInstruction
+		for _, cs := range w.callsIn(fn, "(*sync.RWMutex).RLock") {
+			if _, isDefer := cs.In.(*ssa.Defer); !isDefer {
+				rlocks = append(rlocks, cs.In)
+			}
+		}
+		if len(rlocks) == 0 {
+			continue
+		}
+		n++
+		for _, rl := range rlocks {
+			class, _, _ := w.lockClass(rl)
+			release := func(in ssa.Instruction) bool {
+				cc, ok := in.(ssa.CallInstruction)
+				if !ok {
+					return false
+				}
+				if _, isDefer := in.(*ssa.Defer); isDefer {
+					return false
+				}
+				k, acq, isLock := w.lockClass(cc)
+				return isLock && k == class && !acq
+			}
+			isWrite := func(in ssa.Instruction) bool {
+				switch x := in.(type) {
+				case *ssa.MapUpdate:
+					r, _ := loadedField(x.Map)
+					return r != ""
+				case *ssa.Call:
+					if b, ok := x.Call.Value.(*ssa.Builtin); ok && b.Name() == "delete" {
+						r, _ := loadedField(x.Call.Args[0])
+						return r != ""
+					}
+				case *ssa.Store:
+					if fa, ok := x.Addr.(*ssa.FieldAddr); ok {
+						switch fa.Type().Underlying().(*types.Pointer).Elem().Underlying().(type) {
+						case *types.Map, *types.Slice:
+							return true
+						}
+					}
+				}
+				return false
+			}
+			wit := reachWitness(at(rl), nil, isWrite, release)
+			c.check(wit == nil, rule, fmt.Sprintf("%s/write-under-read-lock@%s", w.fname(fn), class), w.ipos(rl), "nothing is written under the read lock", "a map or list field is written at "+w.ipos(wit)+" while only the read lock "+class+" is held: readers that iterate the same container run concurrently, and the runtime kills the process (concurrent map iteration and map write)")
+		}
+	}
+	if n == 0 {
+		c.okTrivial(rule, "read-locks/none", "-", "no read-locked critical section in the package")
+	}
+}
+
+// ruleSingleParser: the datagrams of a UDP listener reach the message loop in the order they arrived: one goroutine
+// runs the parse loop of a transport, started once (several workers let a short datagram overtake a longer one: the first
+// in-dialog request overtakes the response that pins its dialog).
+func ruleSingleParser(c *Ctx, rule string) {
+	w := c.w
+	n, bad := 0, false
+	var where ssa.Instruction
+	for _, fn := range w.All {
+		if !w.isMain(fn) || fn.Blocks == nil {
+			continue
+		}
+		eachInstr(fn, func(in ssa.Instruction) {
+			g, ok := in.(*ssa.Go)
+			if !ok || w.calleeName(g) != "(*UDPServerTransport).startParseMessage" {
+				return
+			}
+			n++
+			where = in
+			if canReach(at(in), nil, isInstr(in), nil) {
+				bad = true
+			}
+		})
+	}
+	c.check(n == 1 && !bad, rule, "UDPServerTransport/one-parser", w.ipos(where), "one parse goroutine per UDP listener", fmt.Sprintf("the parse loop of a UDP listener is started %d time(s)%s: with several parsers two datagrams received back to back can reach the message loop in the opposite order - a request that follows the response which pins its dialog is routed before the pin exists", n, map[bool]string{true: " (in a loop)", false: ""}[bad]))
+}
+
+// ruleClockFreeAttempts: whether a send attempt dials or writes is decided by the outcome of the previous dial/write,
+// never by the clock: a test on time.Now/Since in a send function (a connect-rate limit) makes Send give up, while the
+// destination accepts connections, for as long as the last attempt is recent.
+func ruleClockFreeAttempts(c *Ctx, rule string) {
+	w := c.w
+	var roots []*ssa.Function
+	for _, sp := range sendFns {
+		if f := w.Fn(sp.Fn); f != nil {
+			roots = append(roots, f)
+		}
+	}
+	set := w.reachableFrom(roots, false)
+	for _, fn := range w.All {
+		if !set[fn] || !w.isMain(fn) || fn.Blocks == nil {
+			continue
+		}
+		k := 0
+		for _, b := range fn.Blocks {
+			if len(b.Instrs) == 0 {
+				continue
+			}
+			ifi, ok := b.Instrs[len(b.Instrs)-1].(*ssa.If)
+			if !ok {
+				continue
+			}
+			clock := localDerives(ifi.Cond, func(v ssa.Value) bool {
+				cc, ok := v.(*ssa.Call)
+				if !ok {
+					return false
+				}
+				switch w.calleeName(cc) {
+				case "time.Now", "time.Since", "time.Until":
+					return true
+				}
+				return false
+			})
+			if clock {
+				k++
+				c.bad(rule, fmt.Sprintf("%s/clock-test#%d", w.fname(fn), k), w.ipos(ifi), "a send path decides by the clock (time.Now/Since) whether to go on: a reconnect that is skipped because the last attempt is recent makes Send fail although the destination accepts connections")
+			}
+		}
+	}
+	c.okTrivial(rule, "send-paths/clock-free", "-", "no test on the clock below the send functions")
+}
+
+// ruleTextFieldsStayText: a field of a decoded type that holds received text on the pinned tree (type string) still has
+// type string: a field turned into an enumeration or a number keeps a canonical form and prints that, not what was
+// received (`SIP/2.0/udp` comes back as `SIP/2.0/UDP`).
+func ruleTextFieldsStayText(c *Ctx, rule string) {
+	w := c.w
+	n := 0
+	for _, l := range strings.Split(baselineFieldsTxt, "\n") {
+		parts := strings.SplitN(strings.TrimSpace(l), "\t", 2)
+		if len(parts) != 2 || !isDecodedType(parts[0]) {
+			continue
+		}
+		tn, ok := w.Main.Pkg.Scope().Lookup(parts[0]).(*types.TypeName)
+		if !ok {
+			continue
+		}
+		st, ok := tn.Type().Underlying().(*types.Struct)
+		if !ok {
+			continue
+		}
+		for _, o := range strings.Split(parts[1], "|") {
+			nt := strings.SplitN(o, ":", 2)
+			if len(nt) != 2 || nt[1] != "string" {
+				continue
+			}
+			for i := 0; i < st.NumFields(); i++ {
+				f := st.Field(i)
+				if fvName(f) != nt[0] {
+					continue
+				}
+				n++
+				isStr := types.TypeString(f.Type(), nil) == "string"
+				c.check(isStr, rule, parts[0]+"."+nt[0]+"/keeps-text", "-", "still holds the received text", fmt.Sprintf("%s.%s held the received text (string) on the pinned tree and now has type %s: the decoder keeps a canonical form instead of the bytes received, and the printer writes that form", parts[0], nt[0], types.TypeString(f.Type(), types.RelativeTo(w.Main.Pkg))))
+			}
+		}
+	}
+	if n < 10 {
+		c.undecided(rule, "text-fields/floor", "-", fmt.Sprintf("only %d text fields of decoded types found in the field inventory", n))
+	}
+}
